@@ -122,6 +122,9 @@ def cells(tier):
                 else ((1, 1),):
             out.append(scell(3, body, pre_n, post_n, T=T))
     out.append(scell(2, 'pi', 3, 1, T=T, gap=0, trail=1))
+    # paragraphs with mixed content (inline elements without tails) keep every text and tail they were sent with
+    for body in ('m', 'mim', 'pmi'):
+        out.append(scell(3, body, 1, 1, T=T))
     for carry in META_CARRIES:
         out.append(mcell(PID, 'payload', carry, T=T))
     out.append(mcell(PID, 'payload', ['metaB'], T=T, n_meta=1))
@@ -134,6 +137,7 @@ def cells(tier):
     for N, k in ((2, 1), (2, 2), (3, 0), (1, 3)):
         out.append(rcell(PID, N, k, T=T))
     out.append(rcell(PID, 2, 2, T=T, repeat_id=True))
+    out.append(rcell(PID, 2, 2, T=T, base_attrs=True))
     out.append(rcell(PID, 1, 1, T=T, repeat_id=True))
     # roMetadataReplace into a running order without stories
     from .p_c04 import mcell as _mcell
